@@ -41,6 +41,7 @@ type SrcSpec struct {
 	Batches []int      `json:"batches"`
 	Procs   []ProcSpec `json:"procs"`
 	EOF     bool       `json:"eof"`
+	SlowAck bool       `json:"slowAck"` // Source.Ack is released only when nothing else is parked (most of the time)
 }
 
 // DstSpec scripts one destination.
@@ -56,8 +57,9 @@ type DstSpec struct {
 
 // DlqSpec scripts the dead-letter queue.
 type DlqSpec struct {
-	Win   [2]int `json:"win"`   // window size, nack threshold
-	ErrAt int    `json:"errAt"` // the n-th record written to the DLQ (1-based, counted over all sources) fails; 0 = never
+	Win   [2]int   `json:"win"`   // window size, nack threshold
+	ErrAt int      `json:"errAt"` // the n-th record written to the DLQ (1-based, counted over all sources) fails; 0 = never
+	Fail  [][2]int `json:"fail"`  // records the DLQ rejects individually (also in the middle of one DLQ write)
 }
 
 // CtlSpec is the stop / failure instant: after At gate releases the harness
